@@ -32,7 +32,8 @@ REQUIRED = ["directory_path_not_normalized", "entry_matches_two_kinds", "multi_d
             "no_match_none", "pack_banner_inside", "pack_banner_beside", "pack_banner_none", "pack_sibling_prefix_name", "pack_path_is_a_single_relative_component",
             "native", "memory", "simfile_read_from_directory_holding_sm_and_ssc", "simfile_read_from_directory_holding_only_sm",
             "named_path_goes_through_a_regular_file", "pack_name_with_regex_metacharacters",
-            "tree_rebuilt_at_the_same_path_under_the_same_filesystem_object", "named_file_lies_in_a_symlinked_sub_directory"]
+            "tree_rebuilt_at_the_same_path_under_the_same_filesystem_object", "named_file_lies_in_a_symlinked_sub_directory",
+            "named_path_through_a_missing_directory_and_back"]
 
 IMAGE = [".png", ".jpg", ".jpeg", ".gif", ".bmp"]
 AUDIO = [".mp3", ".oga", ".ogg", ".wav"]
@@ -140,6 +141,9 @@ def cases(ctx):
             elif r < 0.86 and files:
                 # a path that goes THROUGH an existing regular file: no such file exists, the pattern match (or None) answers
                 props[k] = rng.choice(sorted(files)) + "/" + rng.choice(["banner.png", "x.ogg", "bg/back.png"])
+            elif r < 0.89 and files:
+                # through a sub-directory that does not exist and back out of it: no such place (decided on the native filesystem)
+                props[k] = "nodir/../" + rng.choice(sorted(files))
             elif r < 0.92:
                 props[k] = rng.choice(["nodir/x.png", "gfx2/banner.png", "GFX/banner.png"])
             else:
@@ -293,6 +297,10 @@ def check_dir(ctx, case, t):
         ctx.mon("asset_lookup")
         spec = case["props"].get(k)
         named = []
+        if spec and "nodir/../" in spec:
+            if t.kind != "native":
+                continue   # (PyFilesystem joins paths lexically: 'nodir/..' vanishes before anything is looked up; not claimed)
+            ctx.feat("named_path_through_a_missing_directory_and_back")
         if spec and any(p in song["files"] for p in [x for x in spec.split("/") if x != "."][:-1]):
             ctx.feat("named_path_goes_through_a_regular_file")
         if spec:
